@@ -10,6 +10,7 @@ import N0Verif.Gen.XPathPrim
   shape of the generated text.  What they depend on: the order of the parameters, the order of the fields of the
   generated state structures and the order of the names a `break` exports.
 -/
+set_option linter.unusedSimpArgs false
 namespace N0.XPathPrimGenEq
 open N0 N0.Py N0.XPath N0.Gen.XPathPrim
 
@@ -115,6 +116,17 @@ theorem xpgen_replace_remove (d : Char) (s : Str) : Py.replace [d] [] s = s.filt
   unfold Py.replace
   rw [xpgen_split_single, xpgen_join_nil_splitChar]
 
+/-! ### spellings of "is empty" (`not s`, `s == ""`, `len(s) == 0`, …) -/
+
+theorem xpgen_beq_nil (l : Str) : (l == []) = l.isEmpty := by cases l <;> rfl
+theorem xpgen_bne_nil (l : Str) : (l != []) = !l.isEmpty := by cases l <;> rfl
+theorem xpgen_len_beq_zero {α : Type} (l : List α) : (Int.ofNat l.length == 0) = l.isEmpty := by cases l <;> rfl
+theorem xpgen_len_bne_zero {α : Type} (l : List α) : (Int.ofNat l.length != 0) = !l.isEmpty := by cases l <;> rfl
+theorem xpgen_len_pos {α : Type} (l : List α) : decide (Int.ofNat l.length > 0) = !l.isEmpty := by
+  cases l with
+  | nil => rfl
+  | cons a t => simp only [List.length_cons, List.isEmpty_cons, Bool.not_false, decide_eq_true_eq, Int.ofNat_eq_natCast]; omega
+
 /-! ### `n0eval`: `my_split` -/
 
 /-- a comprehension over `enumerate(parts)` that keeps the pieces that are not blank, stripped, the later ones
@@ -205,7 +217,8 @@ theorem xpgen_fold2 (w : Str) (items : List Str) (acc : Int) :
 
 /-- `n0eval`: the translated source is the hand-written model -/
 theorem xpgen_n0eval_eq (s : Str) : Gen.XPathPrim.n0eval s = XPath.n0eval s := by
-  simp only [Gen.XPathPrim.n0eval, XPath.n0eval, xpgen_replace_remove, xpgen_mySplit_eq, xpgen_fold1, List.nil_append]
+  simp only [Gen.XPathPrim.n0eval, XPath.n0eval, xpgen_replace_remove, xpgen_mySplit_eq, xpgen_fold1, List.nil_append,
+    xpgen_beq_nil, xpgen_bne_nil, xpgen_len_beq_zero, xpgen_len_bne_zero, xpgen_len_pos]
   cases h : (lower (s.filter (· ≠ ' '))).isEmpty
   · simp only [Bool.not_false, Bool.not_true, Bool.false_eq_true, if_false]
     rw [← xpgen_fold2]
@@ -424,7 +437,7 @@ local macro "xpgen_cond_tac" : tactic => `(tactic| (
 theorem xpgen_split_eq (tok : Str) : Gen.XPathPrim.splitNameIndex tok = XPath.splitNameIndex tok := by
   simp only [Gen.XPathPrim.splitNameIndex, XPath.splitNameIndex, xpgen_isInfix_single, xpgen_sliceTo_neg_one,
     xpgen_unpack_split1L, xpgen_idx1_split1L, xpgen_condDelims, xpgen_loopS, xpgen_sContains, xpgen_sText,
-    xpgen_textTilde, xpgen_slice_8]
+    xpgen_textTilde, xpgen_slice_8, xpgen_beq_nil, xpgen_bne_nil, xpgen_len_beq_zero, xpgen_len_bne_zero, xpgen_len_pos]
   cases hA : (tok.contains '[' && endsWith tok [']'])
   · simp
   · simp only [if_true]
